@@ -19,7 +19,7 @@ pub struct Unit {
 
 pub const HOSTILE: [&str; 10] = ["plain", "it's", "$(touch CANARY)", "`touch CANARY`", ";touch CANARY", "a\"b", "é ü", "x'; touch CANARY; echo '", "*.(rs|toml)", "(a|b);touch CANARY"];
 pub const TYPED: [&str; 16] = ["", "-", "--", "'", "\"", "$(touch CANARY)", "`touch CANARY`", ";touch CANARY", "a b", "a\nb", "\\", "*", "é", "--zz;x", "--beta=$(touch CANARY)", "--beta="];
-pub const SHAPES: usize = 13;
+pub const SHAPES: usize = 15;
 
 const RAW_BASH: &str = "echo CALL RAWBASH";
 const RAW_ZSH: &str = "echo CALL RAWZSH";
@@ -68,6 +68,19 @@ pub fn shape(k: usize, text: &str) -> Opts {
             P::Arg { names: Names::long("output-directory-override").help(text), ty: Ty::Str, adjacent: false, metavar: "DIRECTORY".into() }.opt(),
             P::Complete(pos.bx(), CompK::Fixed(vec![("a-dynamic-value-that-is-rather-long-indeed".into(), Some(text.to_string())), ("короткое-но-не-ascii-значение-кандидата".into(), Some("two".into()))]), None).opt(),
         ]),
+        // a titled group holding a positional: its placeholder row belongs to the group in every
+        // shell's listing, next to ordinary candidates outside of the group
+        13 => P::Seq(vec![P::Switch(Names::both('z', "zeta").help("outside of the group")), P::GroupHelp(P::Seq(vec![sw, pos.opt()]).bx(), DocSpec::plain(text))]),
+        // descriptions well beyond a hundred bytes, in scripts of two and three bytes per character
+        14 => {
+            let ru = "очень длинное описание параметра, которое заведомо не помещается в сто байт и продолжается дальше";
+            let jp = "この説明はとても長くて、百バイトを大きく超えてもそのまま最後まで表示されなければなりません。終わり";
+            P::Seq(vec![
+                P::Switch(Names::both('a', "alpha").help(&format!("{} {}", text, ru))),
+                P::Switch(Names::both('g', "gamma").help(&format!("{}{}", jp, text))),
+                P::Complete(pos.bx(), CompK::Fixed(vec![("first".into(), Some(format!("x{} {}", jp, text))), ("second".into(), Some(format!("xy {}", ru)))]), None).opt(),
+            ])
+        }
         _ => unreachable!(),
     };
     Opts::new(p)
